@@ -71,6 +71,9 @@ def run(ctx):
     else:
         n, mo = (12000, 200) if ctx.thorough else (4000, 60) if ctx.escalate else (1500, 40)
         cases = [c['case'] if 'case' in c else c for c in ctx.corpus] + [gen_case(rng, mo) for _ in range(n)]
+    from openfilter.filter_runtime.rolllog import RollLog
+    if tuple(RollLog.MODES) != rc.MODES or tuple(RollLog.MODE_EXTS) != ('.bin', '.binl', '.txt', '.jsonl'):   # source fact the framing relies on
+        res.disagreements.append({'point': 'facts.RollLog.MODES', 'case': None, 'impl': [list(RollLog.MODES), list(RollLog.MODE_EXTS)], 'model': list(rc.MODES)})
     runs = []
     dist = {'modes': {}, 'ops': {}, 'results': {}, 'files_max': {}}
     for c in cases:
